@@ -95,16 +95,21 @@ def one_network(M, rec, rng, g, desc, built, tier):
     for reg in ("zero", "jam", "boundary", "mixed"):
         regime, vals = g.values(desc, reg)
         shape_mode = rng.choice(("vec1", "0d", "float"))
+        as_int = rng.random() < 0.2
+        if as_int:
+            vals = drive.integerise(vals)
         label = "numpy-user"
         opts = {o: True for o in OPTS if rng.random() < 0.2}
         case = dict(case0, pars=pars, vals=vals, opts=opts, engine=label, scalar_shape=shape_mode, regime=regime)
         try:
-            built.net.step(init_conditions=drive.np_init(built, vals, shape_mode), engine=NE(), **opts, **kw)
+            built.net.step(init_conditions=drive.np_init(built, vals, shape_mode, int_dtype=as_int), engine=NE(), **opts, **kw)
         except Exception as e:
             _exc(rec, "step", label, e, case)
             continue
         rec.count("steps_ok")
         rec.seen("engine_modes", label + ":" + shape_mode)
+        if as_int:
+            rec.seen("engine_modes", label + ":int-dtype")
         rec.seen("regimes", regime)
         _check_shapes(rec, built, label, case)
         try:
